@@ -4,6 +4,8 @@ from fractions import Fraction
 
 from ..model import AnalysisError
 from ..lib import FV, decode_new, decode_call, phi_members, is_sym, is_const, is_str, strip_stores, stores_of
+from ..lib import (reached_iff, reached_implies, implies_reached, reached_iff_any, path_term, cond_equiv, cond_implies,  # noqa: F401
+                   else_stmts, branch_stmts, context_literals)
 from ..terms import r_add, Rat, p_const
 from . import common as cm
 from . import geom
@@ -274,16 +276,26 @@ def d10_argument_dispatch(chk, repo):
     chk.rule("C01.D10", "argument dispatch and type refusals: a mesh takes a region XOR two corners and n XOR cell (anything else "
                         "raises); index2point / point2index accept a scalar or a sequence of integers / reals and raise TypeError "
                         "otherwise; containment of anything that is neither a point nor a region is False")
+    from ..lib import reached_iff, reached_iff_any, path_term
     v = FV(repo, "mesh.Mesh.__init__")
-    chains = [s for s in v.body if isinstance(s, ast.If)]
-    chk.require(len(chains) >= 2, "Mesh.__init__: argument dispatch vanished")
-    want = [["region is not None and p1 is None and p2 is None", "region is None and p1 is not None and p2 is not None"],
-            ["cell is not None and n is None", "n is not None and cell is None"]]
-    for k, (chain, specs) in enumerate(zip(chains[:2], want)):
-        conds, tail = _branch_conditions(v, chain)
-        ok = len(conds) == 2 and all(v.eq(ct, v.spec(sp)) for (ct, st), sp in zip(conds, specs)) and always_raises(tail)
+    want = [("_region", ["region is not None and p1 is None and p2 is None", "region is None and p1 is not None and p2 is not None"]),
+            ("_n", ["cell is not None and n is None", "n is not None and cell is None"])]
+    for k, (slot, specs) in enumerate(want):
+        stores = [st for st, attr, val, kind in v.self_stores() if attr == slot]
+        chk.require(len(stores) >= 2, f"Mesh.__init__: argument dispatch for {slot} vanished")
+        # each alternative is taken exactly under its condition (whatever the nesting), anything else raises ValueError
+        used = set()
+        ok = len(stores) == 2
+        for sp in specs:
+            hit = [st for st in stores if id(st) not in used and reached_iff(v, st, v.spec(sp))]
+            ok = ok and len(hit) == 1
+            used |= {id(h) for h in hit}
+        neither = v.ev._bool("and", [v.ev._not(v.spec(sp)) for sp in specs])
+        refused = reached_iff_any(v, [r for r, nm in v.raises() if nm == "ValueError"], neither)
+        ok = ok and bool(refused)
         chk.ob(f"mesh.Mesh.__init__::dispatch#{k}", ok, "C01.D10",
-               f"branches {[v.show(ct)[:70] for ct, st in conds]}; expected `{specs[0]}` / `{specs[1]}` / else raise", v.f, chain)
+               f"self.{slot} is set under {[v.show(path_term(v, st))[:90] for st in stores]}; expected `{specs[0]}` / `{specs[1]}` / "
+               f"otherwise raise ValueError", v.f, stores[0])
     for cond, exc, key in (("not isinstance(cell, (tuple, list, np.ndarray))", "TypeError", "cell-type"),
                            ("len(cell) != self.region.ndim", "ValueError", "cell-length"),
                            ("not all((isinstance(i, Number) for i in cell))", "TypeError", "cell-numbers"),
